@@ -35,6 +35,9 @@ def check(repo, col, tier):
     from . import c11 as _c11l
     col.rule("R-C10-labels", "a table of a view that is re-derived from itself keeps its row labels", 3)
     _c11l.table_labels(repo, col, "R-C10-labels")
+    # what set() / make_trainable() through `.edge("all")` / `.cell(i)` touch is what the selection funnels select (shared with C11/C20)
+    col.rule("R-C10-filter", "selection funnels through _at_nodes/_at_edges with scope-dependent columns", 12)
+    _c11l._filter(repo, col, "R-C10-filter")
     col.rule("R-C10-rows", "row selection = in-view rows of the owning table where the key is set", 6)
     col.rule("R-C10-scatter", "index space of the scatter == position space of the array", 3)
     col.rule("R-C10-sentinel", "padded index reaches a scatter only through mode='drop' + remap", 2)
